@@ -14,7 +14,8 @@ ASSUMPTIONS = ["reals for floats: overflow/underflow of tiny or huge components 
                "square roots enter as fresh non-negative variables r with r*r = t (QF_NRA)"]
 BOUNDS = {"quick": {"normal": "3 symbolic components, any non-zero vector (z = 0 and z != 0 paths), unit cm or dimensionless",
                     "strings": "x y z X Y Z, all 6 axis triples in lower/upper/mixed case", "VectorBasis": "3 symbolic orthogonal vectors",
-                    "top/side": "2 symbolic cells + origin, dx given or omitted; every in/out-of-sphere pattern is a path"},
+                    "top/side": "2 symbolic cells + origin, dx given or omitted; every in/out-of-sphere pattern is a path; the same call made a second "
+                                "time on the same data (data and origin unchanged, second basis checked)"},
           "thorough": {"as": "quick with 3 cells for top/side"}}
 FLOOR = {"quick": 300, "thorough": 500}
 SHADOW_EVERY = 1
@@ -40,6 +41,10 @@ def configs(tier):
                 else:
                     for li in range(len(LAYOUTS)):
                         out.append(dict(kind="angmom", d=d, dx=dx, origin=org, ncell=len(LAYOUTS[li]), layout=li))
+    # the same call made twice on the same data: the second answer is checked, and the data must not have been touched
+    for d in ("top", "side"):
+        out.append(dict(kind="angmom", d=d, dx=True, origin=True, ncell=2, repeat=True))
+        out.append(dict(kind="angmom", d=d, dx=False, origin=True, ncell=len(LAYOUTS[0]), layout=0, repeat=True))
     if tier != "quick":
         out.append(dict(kind="angmom", d="side", dx=True, origin=False, ncell=1, full=True))
         out.append(dict(kind="angmom", d="top", dx=True, origin=True, ncell=3))
@@ -125,7 +130,7 @@ def body(m, cfg):
     # top / side
     n = cfg["ncell"]
     d = cfg["d"]
-    tag = d.lower() + (":dx" if cfg["dx"] else ":auto") + (":origin" if cfg["origin"] else "")
+    tag = d.lower() + (":dx" if cfg["dx"] else ":auto") + (":origin" if cfg["origin"] else "") + (":second-call" if cfg.get("repeat") else "")
     if cfg["dx"]:
         pos = Vector(*[m.array("p" + k, (n,), "float64") for k in "xyz"], unit="cm")
     else:
@@ -197,6 +202,29 @@ def body(m, cfg):
     _core.MERGE_MINMAX[0] = False
     try:
         with contextlib.redirect_stdout(io.StringIO()):
+            if cfg.get("repeat"):
+                members = dict(data)
+                if m.symbolic:
+                    # the first call's own basis is not the subject: continue it with a fixed normal (keeps the path condition small)
+                    D.VectorBasis = lambda n, u=None, v=None: realVB(n=Vector(0.0, 0.0, 1.0), u=u, v=v)
+                    Vm.VectorBasis = realVB2
+                try:
+                    get_direction(d, data=data, dx=dx, dy=dy, origin=origin)
+                finally:
+                    D.VectorBasis = VB
+                    if d.lower() == "side":
+                        Vm.VectorBasis = VB2
+                rec.clear()
+                rolled.clear()
+                now = [[m.t(t) for t in m.vals(c._array)] for c in pos._xyz.values()] + \
+                      [[m.t(t) for t in m.vals(c._array)] for c in vel._xyz.values()] + [[m.t(t) for t in m.vals(mass._array)]]
+                same = all(data.get(k_) is v_ for k_, v_ in members.items()) and len(data) == len(members)
+                m.require(same, "get_direction leaves the members of the data it is given in place", key=f"inputs-modified:{tag}")
+                pairs = [(a_, b_) for x_, y_ in zip(now, P + W + [M]) for a_, b_ in zip(x_, y_)]
+                if origin is not None:
+                    pairs += list(zip(comps(m, origin), O))
+                m.check("get_direction leaves the values of the data and the origin it is given unchanged",
+                        m.And([m.close(a_, b_, exact=True) for a_, b_ in pairs]), key=f"inputs-modified:{tag}")
             b = get_direction(d, data=data, dx=dx, dy=dy, origin=origin)
     finally:
         D.VectorBasis = realVB
@@ -234,7 +262,7 @@ def body(m, cfg):
     m.check("the vector given to the basis is the mass-weighted angular momentum of the cells within the window",
             m.And([m.close(g, e, scale=sc) for g, e in zip(rec["L"], L)]), key=f"angmom-value:{tag}", timeout_ms=60000)
     if not m.symbolic:
-        if all(abs(x) == 0 for x in L):
+        if all(abs(x) == 0 for x in L) and not m.failed:
             from symx.core import Abort
             raise Abort("cut: zero net angular momentum (outside the property's premise)")
     l = rec["l"]
